@@ -170,6 +170,9 @@ class FramingCtx(object):
         if mode == "sweep_len":
             length = cfg["sweep_value"]
             mtype = rng.pick([1, 2, 3, 4, 5])
+            if 4090 <= length <= 4100 or 19 <= length <= 30:
+                # around the boundaries of the header rule use a type that has no narrower rule of its own
+                mtype = rp.UPDATE if length >= 23 else rng.pick([1, 2, 3, 4, 5])
             body = bytes(rng.randrange(256) for _ in range(rng.pick([0, 4, 10])))
             stream = rp.frame(mtype, body, length=length)
             if rng.chance(0.5):
@@ -192,9 +195,15 @@ class FramingCtx(object):
                 pfx = ["10.%d.%d.0/24" % (i // 256, i % 256) for i in range(1015)]
                 attrs = {"origin": 0, "as_path": [(2, [cfg["remote_as"] & 0xFFFF or 1])], "next_hop": "10.0.0.2"}
                 big = rp.encode_update([], attrs, pfx, as4=False)
-                while len(big) > 4096:
+                limit = rng.pick([4096, 4096, 4095])
+                while len(big) > limit:
                     pfx.pop()
                     big = rp.encode_update([], attrs, pfx, as4=False)
+                # fill up to the limit exactly (a /24 takes 4 octets, a /16 3, a /8 2, the default route 1)
+                fill = {1: ["0.0.0.0/0"], 2: ["11.0.0.0/8"], 3: ["11.1.0.0/16"]}.get(limit - len(big))
+                if fill:
+                    big = rp.encode_update([], attrs, pfx + fill, as4=False)
+                self.stats["gen:max_size_message(%d)" % len(big)] += 1
                 parts.append(big)
                 parts.append(rp.encode_keepalive())
             total = sum(len(x) for x in parts)
